@@ -21,7 +21,7 @@ CLASSES = ('nonrec', 'linear', 'nonlinear', 'mixed', 'unitcycle')
 
 
 def plan(tier, seed):
-    return dict(n=400 if tier == 'quick' else 100000, budget_s=75 if tier == 'quick' else 840, case_timeout=120)
+    return dict(n=1200 if tier == 'quick' else 100000, budget_s=75 if tier == 'quick' else 840, case_timeout=120)
 
 
 def gen(tier, seed, index):
